@@ -6,6 +6,8 @@
 -/
 import UnytModel.DriverBase
 import UnytModel.PhysicalConstantsCheck
+import UnytModel.AddConstants
+import UnytModel.Ops.C10
 
 namespace Unyt
 open Generated PCheck
@@ -42,8 +44,30 @@ def spaceCheck (which : String) (rows : List MatRow) : Option Bool :=
 end C15Ops
 open C15Ops
 
+/-- one reading on the wire: `valuebits;scalebits;offsetbits;dim;coeffbits;factors` -/
+def readingStr (r : Float × UnitV Float) : String :=
+  s!"{bitsStr r.1};{bitsStr r.2.scale};{bitsStr r.2.offset};{r.2.dim.str};{bitsStr r.2.expr.coeff};{Factors.str (UExpr.normF r.2.expr.factors)}"
+
 def opsC15 : Handler := fun st fields =>
   match fields with
+  -- the body of add_constants for one table row: `extra` = user rows of the registry table,
+  -- `um` / `cgs` = units_map of the registry's unit system / of the cgs system, `ue` = the row's
+  -- unit expression, `x` = the row's value.  Reply: route label, plain, _mks, _cgs readings
+  | ["c15.materialise", extra, um, cgs, ue, x] =>
+    match C10Wire.parseExtra extra, C10Wire.parseUm um, C10Wire.parseUm cgs, C10Wire.parseExpr ue, fb x with
+    | some ex, some m, some mc, some ue, some x =>
+      let t := C10Wire.lutWith st ex
+      let em : EmTable Float := defaultEm Float
+      match mkUnit st.pre t ue with
+      | .error e => some (st, s!"err\tunit:{e.str}")
+      | .ok u =>
+        let S := C10Wire.sysOf m
+        match AddConstants.addConstantsRow st.pre t em S (C10Wire.sysOf mc) u x with
+        | .error e => some (st, s!"err\t{e.str}")
+        | .ok g =>
+          let c := match g.cgs with | some c => readingStr c | none => "none"
+          some (st, s!"ok\t{AddConstants.routeLabel st.pre t em S u}\t{readingStr g.plain}\t{readingStr g.mks}\t{c}")
+    | _, _, _, _, _ => none
   -- symbolic definitions, evaluated at Float
   | ["c15.ratio", n] =>
     match ratioDefs.lookup n with
